@@ -296,6 +296,20 @@ class Ctx:
     def not_shown(self, name: str, detail: str):
         self.unshown.append({"name": name, "detail": detail[:3000]})
 
+    def coqchk(self, modules: list[str], timeout: int = 900):
+        """thorough tier only: second opinion of the independent checker on the compiled property files and everything
+        they depend on; records the axioms it reports ("<none>" expected)"""
+        if self.quick():
+            return
+        rc, out, secs = run(["timeout", str(timeout), "coqchk", "-silent", "-o"] + COQ_FLAGS[:9] + modules, cwd=COQ, timeout=timeout + 60)
+        good = rc == 0 and "* Axioms: <none>" in out
+        name = "coqchk " + " ".join(modules) + " (axioms: none)"
+        self.obligation(name, good, out[-600:])
+        if not good:
+            self.not_shown(name, out[-1500:])
+        else:
+            self.trusted.append("coqchk -o on " + ", ".join(modules) + f": Axioms: <none> ({secs:.0f} s)")
+
     # -- Coq
     def build(self, targets: list[str], force: list[str] | None = None, timeout=900) -> BuildResult:
         br = coq_make(targets, timeout=timeout, force=force)
